@@ -7,6 +7,7 @@ Extracted (fail-closed; anything outside the expected statement skeleton raises 
                    target index, the loop bounds range(lo, hi), the angle / target / number of
                    controls of the cascaded controlled RzGate, the angle of the PhaseFactorGate
   auxiliary      : the angle of the RzGate, the order of the append_gate calls
+  as_matrix (phase shift) : the coefficients a, b of  expm(1j*theta*(a*|0..0><0..0| + b*identity))
   eigenvalue transformation (as_matrix and as_circuit separately):
                    the parity test, dim / start of both branches, the factors produced before the
                    loop, range(lo, hi) of the pairing loop, the factors of the loop body with their
@@ -16,6 +17,7 @@ Angles: an expression that is homogeneous of degree 1 in self.theta is turned in
 coefficient (a Q-valued Gallina term: theta replaced by 1, Python ints -> Z, `/` -> Qdiv).
 """
 import ast
+from fractions import Fraction
 from pyx import Unsupported, parse, find_class, find_func, body_nodoc
 
 F_PCPS = "src/qib/algorithms/qubitization/projector_controlled_phase_shift.py"
@@ -290,6 +292,76 @@ def gen_phase_shift():
     return "\n".join(out)
 
 
+
+# ---------------------------------------------------------------------------------- phase shift, as_matrix
+def qlit(fr):
+    return "(%d # %d)%%Q" % (fr.numerator, fr.denominator) if fr >= 0 else "(- (%d # %d))%%Q" % (-fr.numerator, fr.denominator)
+
+
+def lin_expm_arg(e):
+    """the argument of expm as a polynomial: ({'1'|'P'|'I': Fraction}, power of 1j, degree in theta);
+    'P' = the projector `matrix`, 'I' = np.identity(2**size_enc)"""
+    s = up(e)
+    if s == "matrix":
+        return {"P": Fraction(1)}, 0, 0
+    if s in ("np.identity(2 ** size_enc)", "np.eye(2 ** size_enc)"):
+        return {"I": Fraction(1)}, 0, 0
+    if s == "self.theta":
+        return {"1": Fraction(1)}, 0, 1
+    if isinstance(e, ast.Constant):
+        if isinstance(e.value, complex) and e.value == 1j:
+            return {"1": Fraction(1)}, 1, 0
+        if isinstance(e.value, int) and not isinstance(e.value, bool):
+            return {"1": Fraction(e.value)}, 0, 0
+        raise Unsupported("constant %r in the expm argument" % (e.value,))
+    if isinstance(e, ast.UnaryOp) and isinstance(e.op, ast.USub):
+        d, pi, pt = lin_expm_arg(e.operand)
+        return {k: -v for k, v in d.items()}, pi, pt
+    if isinstance(e, ast.BinOp):
+        a, ai, at = lin_expm_arg(e.left)
+        b, bi, bt = lin_expm_arg(e.right)
+        if isinstance(e.op, (ast.Add, ast.Sub)):
+            if (ai, at) != (bi, bt):
+                raise Unsupported("sum of terms with different powers of 1j / theta: %s" % s[:80])
+            sg = 1 if isinstance(e.op, ast.Add) else -1
+            out = dict(a)
+            for k, v in b.items():
+                out[k] = out.get(k, Fraction(0)) + sg * v
+            return out, ai, at
+        if isinstance(e.op, ast.Mult):
+            if set(a) != {"1"} and set(b) != {"1"}:
+                raise Unsupported("product of two matrices in the expm argument: %s" % s[:80])
+            if set(a) != {"1"}:
+                a, b = b, a
+            return {k: a["1"] * v for k, v in b.items()}, ai + bi, at + bt
+        if isinstance(e.op, ast.Div):
+            if set(b) != {"1"} or bi or bt or b["1"] == 0:
+                raise Unsupported("division in the expm argument: %s" % s[:80])
+            return {k: v / b["1"] for k, v in a.items()}, ai, at
+    raise Unsupported("expm argument: %s" % s[:80])
+
+
+def gen_phase_matrix():
+    cls = find_class(parse(F_PCPS), "ProjectorControlledPhaseShift")
+    body = [st for st in body_nodoc(find_func(cls, "as_matrix")) if not is_raise_guard(st)]
+    want = ["size_enc = len(self.projection_state)",
+            "binary_index = int(''.join(map(str, self.projection_state)), 2)",
+            "basis_state = np.zeros(2 ** size_enc)",
+            "basis_state[binary_index] = 1",
+            "matrix = np.outer(basis_state, basis_state)"]
+    if len(body) != 7 or [up(st) for st in body[:5]] != want:
+        raise Unsupported("ProjectorControlledPhaseShift.as_matrix: unexpected statements before expm")
+    v = assign_of(body[5], "mat_ref")
+    if v is None or up(body[6]) != "return mat_ref":
+        raise Unsupported("ProjectorControlledPhaseShift.as_matrix: expected mat_ref = expm(...); return mat_ref")
+    arg = ctor(v, "expm", 1)[0]
+    d, pi, pt = lin_expm_arg(arg)
+    if pi != 1 or pt != 1 or d.get("1", 0) != 0:
+        raise Unsupported("expm argument is not 1j * theta * (a * projector + b * identity): %s" % up(arg)[:80])
+    return ("Definition gen_pmat : pmat_src := {| pm_proj := %s; pm_id := %s |}.\n"
+            % (qlit(d.get("P", Fraction(0))), qlit(d.get("I", Fraction(0)))))
+
+
 # ---------------------------------------------------------------------------------- eigenvalue transformation
 LEN = "len(self.theta_seq)"
 
@@ -447,7 +519,7 @@ def gen_evt():
 def generate():
     return ("(* generated by gen/qubitization.py from %s and %s -- do not edit *)\n"
             "From Qib Require Import Qubitization.QubitModel.\n\n" % (F_PCPS, F_EVT)
-            + gen_phase_shift() + "\n" + gen_evt())
+            + gen_phase_shift() + "\n" + gen_phase_matrix() + "\n" + gen_evt())
 
 
 if __name__ == "__main__":
